@@ -6,6 +6,7 @@ import (
 	"math/rand"
 	"os"
 	"path/filepath"
+	"runtime"
 	"sync"
 	"sync/atomic"
 	"time"
@@ -632,6 +633,79 @@ func readPhase(tg target, kindCode int, r *rand.Rand, iters int, t *Trace) {
 	t.Stat("conc.readonly_phase." + tg.name)
 }
 
+// closeWhileBusy: Close arrives while a background job is in the middle of its work (a compaction that has
+// written its files and is about to swap the segments in; a background flush that has written a segment).
+// The job is held at a hook point, Close is started, then the job goes on. Close must return (and so must
+// the job): a shutdown that waits for a worker while holding what the worker needs never does.
+func closeWhileBusy(r *rand.Rand, dir string, job int, t *Trace) {
+	os.RemoveAll(dir)
+	cfg := comet.DefaultStorageConfig(dir)
+	cfg.MemtableSizeLimit = 1
+	cfg.FlushThreshold = 1 << 60
+	cfg.CompactionInterval = time.Hour
+	cfg.CompactionThreshold = 2
+	hold := "compact.gzclosed"
+	if job == 1 {
+		hold = "flush.gzclosed"
+		cfg.MemtableSizeLimit = 1 << 30
+		cfg.FlushThreshold = 1 // every add asks the background worker to flush whatever is frozen
+	}
+	v, _ := comet.NewFlatIndex(2, comet.Euclidean)
+	cfg.VectorIndexTemplate = v
+	st, err := comet.OpenPersistentHybridIndex(cfg)
+	if err != nil {
+		panic(err)
+	}
+	reached := make(chan struct{})
+	release := make(chan struct{})
+	var once sync.Once
+	handler := func(name string, args ...uint64) {
+		if name == hold {
+			once.Do(func() {
+				close(reached)
+				<-release
+			})
+		}
+	}
+	n := 3 + r.Intn(4)
+	if job == 1 {
+		comet.VerifSetHandler(handler)
+	}
+	for i := 0; i < n; i++ {
+		st.AddWithID(uint32(i+1), []float32{float32(i), 1}, "", nil)
+	}
+	if job == 0 {
+		st.Flush() // segments on disk for the compaction to merge
+		comet.VerifSetHandler(handler)
+		st.TriggerCompaction()
+	} else {
+		st.VerifRotate()
+		st.AddWithID(uint32(n+1), []float32{9, 9}, "", nil) // wakes the flush worker
+	}
+	defer comet.VerifSetHandler(nil)
+	select {
+	case <-reached:
+		t.Stat("schedule.close_while_busy_job_held")
+	case <-time.After(5 * time.Second):
+		// the job never got to the hook point (nothing to do): an ordinary close
+		t.Stat("schedule.close_while_busy_job_idle")
+	}
+	closed := make(chan error, 1)
+	go func() { closed <- st.Close() }()
+	time.Sleep(time.Duration(1+r.Intn(30)) * time.Millisecond) // Close is under way (or waiting)
+	close(release)
+	select {
+	case <-closed:
+	case <-time.After(30 * time.Second):
+		fmt.Fprintln(os.Stderr, "DEADLOCK-WATCHDOG: Close, called while a background", []string{"compaction", "flush"}[job], "was in the middle of its work, did not return within 30s; goroutines:")
+		buf := make([]byte, 1<<20)
+		os.Stderr.Write(buf[:runtime.Stack(buf, true)])
+		os.Exit(3)
+	}
+	t.Stat("schedule.close_while_busy")
+	os.RemoveAll(dir)
+}
+
 func genC11(r *rand.Rand, t *Trace, thorough bool) {
 	rounds := 1
 	opsPer := 40
@@ -668,6 +742,10 @@ func genC11(r *rand.Rand, t *Trace, thorough bool) {
 		os.RemoveAll(d2)
 		stress(mkStoreTarget(d2, true), 9, r, gs[r.Intn(len(gs))], opsPer, false, t)
 		os.RemoveAll(d2)
+		for i := 0; i < 6; i++ {
+			storeCaseCounter++
+			closeWhileBusy(r, filepath.Join(work, "stores", fmt.Sprintf("x%d_%d", os.Getpid(), storeCaseCounter)), i%2, t)
+		}
 		storeCaseCounter++
 		d3 := filepath.Join(work, "stores", fmt.Sprintf("x%d_%d", os.Getpid(), storeCaseCounter))
 		os.RemoveAll(d3)
